@@ -20,7 +20,7 @@ from yatiml.recognizer import Recognizer
 from yatiml.util import (
         generic_type_args, is_generic_sequence, is_generic_mapping,
         is_generic_union, is_string_like, scalar_type_to_tag, strip_tags,
-        type_to_desc)
+        type_to_desc, yaml12_float_regex)
 
 logger = logging.getLogger(__name__)
 
@@ -269,23 +269,6 @@ class Loader(yaml.SafeLoader):
         now accepting a mix of YAML 1.1 and YAML 1.2, but so be it.
         The YAML mess isn't really fixable anyway.
         """
-        yaml12_float_regex = re.compile(
-                r'^(?:'
-                # sign
-                r'[-+]?'
-                # content
-                r'(?:'
-                # float numbers
-                r'  (?:[0-9]+[eE][-+]?[0-9]+'
-                r'  |[0-9]+\.([eE][-+]?[0-9]+)?'
-                r'  |[0-9]*\.[0-9]+([eE][-+]?[0-9]+)?'
-                r'  )'
-                # infinity
-                r'|\.(?:inf|Inf|INF)'
-                # not a number
-                r'|\.(?:nan|NaN|NAN)'
-                r'))$', re.X)
-
         new_implicit_resolvers = dict()
 
         for first, resolvers in self.yaml_implicit_resolvers.items():
